@@ -13,7 +13,8 @@
 //! to the file it came from.
 //!
 //! input fields : op bucket key src_bucket src_key upload_id (each `-` or `+hex`; the text `{OUTER}` inside a value
-//!                stands for the absolute path of `outer`) part(decimal) keys(list hex, delete_objects)
+//!                stands for the absolute path of `outer`, `{ROOT}` for the backend's canonical root `{OUTER}/root`,
+//!                `{ROOTPCT}` for the root with every `/` written `%2F`) part(decimal) keys(list hex, delete_objects)
 //!                parts(`-` or `,`-joined decimals, complete_multipart_upload) flags(letters or `_`:
 //!                m metadata present, a access-point copy source, n no body, s invalid storage class,
 //!                l positive content-length)
@@ -601,6 +602,53 @@ fn generate(rng: &mut Rng, n: u64, tier: &str, emit: &mut dyn FnMut(Vec<String>)
         emit(mk("complete_multipart_upload", "bucket-a", key, "", "", U1, 0, &[], "1", ""));
         emit(mk("delete_objects", "bucket-a", "", "", "", "", 0, &["dir/inner".to_owned(), key.clone()], "-", ""));
     }
+    // ---- keys that spell the store's own absolute root path: `Path::join` REPLACES the bucket directory when its
+    // right operand is absolute, and `absolutize_virtually` only checks "under the root" — so these are the keys
+    // that cross buckets / reach bookkeeping if the key check ever lets a `RootDir` component through
+    let info_a = info_name("bucket-a", "obj");
+    let root_tails: Vec<String> = vec![
+        "{ROOT}/bucket-b/obj".into(),
+        "{ROOT}/bucket-b/secret".into(),
+        "{ROOT}/bucket-b/dir/inner".into(),
+        "{ROOT}/bucket-b/newfile".into(),
+        "{ROOT}/bucket-b".into(),
+        "{ROOT}/bucket-b/".into(),
+        "{ROOT}/bucket-a/obj".into(),
+        "{ROOT}/bucket-a/x".into(),
+        format!("{{ROOT}}/{look_meta_b}"),
+        format!("{{ROOT}}/{info_a}"),
+        format!("{{ROOT}}/{up1}"),
+        format!("{{ROOT}}/{part2}"),
+        format!("{{ROOT}}/.upload-{U2}.json"),
+        "{ROOT}".into(),
+        "{ROOT}/".into(),
+        "{ROOT}/newbucket/x".into(),
+        "{ROOT}/../sentinel/secret.txt".into(),
+        "{ROOT}/bucket-a/../bucket-b/obj".into(),
+        "{OUTER}/sentinel/secret.txt".into(),
+        "{OUTER}/bucket-a/obj".into(),
+    ];
+    let leads: [&str; 12] = ["", "/", "//", "./", ".//", "dir/", "dir//", "../", "obj/", "x/../", "%2f", "././/"];
+    let mut root_keys: Vec<String> = Vec::new();
+    for t in &root_tails {
+        for l in &leads {
+            root_keys.push(format!("{l}{t}"));
+        }
+    }
+    for key in &root_keys {
+        for op in ["get_object", "head_object", "delete_object", "put_object"] {
+            emit(mk(op, "bucket-a", key, "", "", "", 0, &[], "-", if op == "put_object" { "m" } else { "" }));
+        }
+        emit(mk("copy_object", "bucket-a", key, "bucket-a", "obj", "", 0, &[], "-", ""));
+        emit(mk("copy_object", "bucket-a", "copied", "bucket-a", key, "", 0, &[], "-", ""));
+        emit(mk("upload_part_copy", "bucket-a", "mp", "bucket-a", key, U1, 3, &[], "-", ""));
+        emit(mk("complete_multipart_upload", "bucket-a", key, "", "", U1, 0, &[], "1", ""));
+        emit(mk("delete_objects", "bucket-a", "", "", "", "", 0, &["dir/inner".to_owned(), key.clone()], "-", ""));
+        emit(mk("create_multipart_upload", "bucket-a", key, "", "", "", 0, &[], "-", "m"));
+        emit(mk("abort_multipart_upload", "bucket-a", key, "", "", U1, 0, &[], "-", ""));
+        emit(mk("list_parts", "bucket-a", key, "", "", U1, 0, &[], "-", ""));
+        emit(mk("upload_part", "bucket-a", key, "", "", U1, 3, &[], "-", ""));
+    }
     // keys that only reach the bookkeeping names: a thinner sample
     for (n, key) in keys.iter().enumerate() {
         if n % 5 == 0 {
@@ -631,6 +679,10 @@ fn generate(rng: &mut Rng, n: u64, tier: &str, emit: &mut dyn FnMut(Vec<String>)
         "/etc".into(),
         "{OUTER}/sentinel".into(),
         "{OUTER}/root/bucket-b".into(),
+        "{ROOT}".into(),
+        "{ROOT}/bucket-b".into(),
+        "/{ROOT}/bucket-b".into(),
+        "{ROOT}/bucket-a".into(),
         "%2e%2e".into(),
         "..%2fsentinel".into(),
         up1.clone(),
@@ -678,6 +730,8 @@ fn generate(rng: &mut Rng, n: u64, tier: &str, emit: &mut dyn FnMut(Vec<String>)
         U1[..8].to_owned(),
         format!("{U1}/"),
         "{OUTER}/sentinel/secret.txt".into(),
+        "{ROOT}/bucket-b/obj".into(),
+        format!("{{ROOT}}/.upload-{U2}.json"),
         format!("{}x", &U1[..35]),
     ];
     for u in &uploads {
@@ -726,6 +780,21 @@ fn generate(rng: &mut Rng, n: u64, tier: &str, emit: &mut dyn FnMut(Vec<String>)
         "/bucket-a%2F..%2Fbucket-b/obj".into(),
         "/%2e%2e/sentinel/secret.txt".into(),
         "/bucket-a/%7BOUTER%7D/sentinel/secret.txt".into(),
+        // the request path is `/bucket-a/` + an absolute key: `/bucket-a//<root>/bucket-b/secret`
+        "/bucket-a/{ROOT}/bucket-b/secret".into(),
+        "/bucket-a/{ROOT}/bucket-b/obj".into(),
+        "/bucket-a//{ROOT}/bucket-b/obj".into(),
+        "/bucket-a/{ROOT}/bucket-b/newfile".into(),
+        "/bucket-a/{ROOT}/bucket-a/obj".into(),
+        "/bucket-a/{ROOT}/bucket-a/x".into(),
+        "/bucket-a/{ROOTPCT}%2Fbucket-b%2Fsecret".into(),
+        "/bucket-a/{ROOTPCT}%2Fbucket-b%2Fobj".into(),
+        "/bucket-a/%2F{ROOTPCT}%2Fbucket-b%2Fobj".into(),
+        "/bucket-a/.{ROOTPCT}%2Fbucket-b%2Fobj".into(),
+        format!("/bucket-a/{{ROOT}}/{look_meta_b}"),
+        format!("/bucket-a/{{ROOT}}/{up1}"),
+        format!("/bucket-a/{{ROOTPCT}}%2F{up1}"),
+        "/bucket-a/{OUTER}/sentinel/secret.txt".into(),
     ];
     for p in &raw_paths {
         for op in ["http_get", "http_head", "http_put", "http_delete"] {
@@ -742,15 +811,23 @@ fn generate(rng: &mut Rng, n: u64, tier: &str, emit: &mut dyn FnMut(Vec<String>)
         "bucket-a%2F..%2Fbucket-b/secret".into(),
         format!("bucket-a/..%2F{look_meta_b}"),
         "bucket-a/dir%2F%2E%2E%2Fobj".into(),
+        "bucket-a/{ROOT}/bucket-b/secret".into(),
+        "/bucket-a/{ROOT}/bucket-b/secret".into(),
+        "bucket-a/{ROOTPCT}%2Fbucket-b%2Fsecret".into(),
+        "bucket-a/%2F{ROOTPCT}%2Fbucket-b%2Fsecret".into(),
+        format!("bucket-a/{{ROOT}}/{look_meta_b}"),
+        "bucket-a/{ROOT}/bucket-a/obj".into(),
     ];
     for src in &raw_sources {
         emit(mk("http_copy", "", "/bucket-a/copied", "", src, "", 0, &[], "-", ""));
         emit(mk("http_copy", "", "/bucket-a/..%2Fbucket-b%2Fcopied", "", src, "", 0, &[], "-", ""));
+        emit(mk("http_copy", "", "/bucket-a/{ROOT}/bucket-b/copied", "", src, "", 0, &[], "-", ""));
     }
 
     // ---- random: longer keys, all operations, mixed separators
     let units: Vec<String> = {
         let mut u = comps.clone();
+        u.extend(["{ROOT}/bucket-b/obj".to_owned(), "{ROOT}".into(), format!("{{ROOT}}/{up1}"), "{ROOT}/bucket-a/x".into()]);
         u.extend(["//".to_owned(), "a".into(), "%2f".into(), up1.clone(), part2.clone(), "empty".into(), "bucket-a".into(), "secret".into(), "\u{e9}".into(), " ".into()]);
         u
     };
@@ -791,10 +868,17 @@ fn generate(rng: &mut Rng, n: u64, tier: &str, emit: &mut dyn FnMut(Vec<String>)
     }
 }
 
+/// `{ROOT}` = canonical absolute path of the backend's root, `{ROOTPCT}` = the same with every `/` written `%2F`,
+/// `{OUTER}` = its parent (the snapshotted directory)
+fn expand(s: &str, outer: &str) -> String {
+    let root = format!("{outer}/root");
+    s.replace("{ROOTPCT}", &root.replace('/', "%2F")).replace("{ROOT}", &root).replace("{OUTER}", outer)
+}
+
 fn parse_in(f: &[&str], outer: &str) -> In {
     let text = |s: &str| -> String {
         let v = un_opt_hex(s).expect("opt hex field").unwrap_or_default();
-        String::from_utf8(v).expect("utf8 field").replace("{OUTER}", outer)
+        expand(&String::from_utf8(v).expect("utf8 field"), outer)
     };
     In {
         op: f[0].to_owned(),
@@ -807,7 +891,7 @@ fn parse_in(f: &[&str], outer: &str) -> In {
         keys: un_list_hex(f[7])
             .expect("keys")
             .into_iter()
-            .map(|k| String::from_utf8(k).expect("utf8 key").replace("{OUTER}", outer))
+            .map(|k| expand(&String::from_utf8(k).expect("utf8 key"), outer))
             .collect(),
         parts: if f[8] == "-" {
             None
